@@ -81,6 +81,22 @@ DSLS = {
         "0": ("int", 0),
         "1": ("int", 1),
     },
+    # int and bool results side by side (True == 1 and False == 0 in Python, but a validator may tell them apart):
+    # used by oracle-only cases, the Lean value model has no booleans
+    "mixed": {
+        "isz": (arrow("int", "bool"), lambda a: a == 0),
+        "pos": (arrow("int", "bool"), lambda a: a > 0),
+        "not": (arrow("bool", "bool"), lambda a: not a),
+        "and": (arrow("bool", "bool", "bool"), lambda a: lambda b: a and b),
+        "b2i": (arrow("bool", "int"), lambda a: 1 if a else 0),
+        "+": (arrow("int", "int", "int"), lambda a: lambda b: a + b),
+        "neg": (arrow("int", "int"), lambda a: -a),
+        "div": (arrow("int", "int", "int"), _div),
+        "true": ("bool", True),
+        "false": ("bool", False),
+        "0": ("int", 0),
+        "1": ("int", 1),
+    },
 }
 SKIPPABLE = (ZeroDivisionError, IndexError)
 
@@ -188,6 +204,8 @@ def canon_value(v):
 def random_value(rng, ty):
     if ty == "int":
         return rng.choice([0, 0, 1, 2, -1, 3, 5])
+    if ty == "bool":
+        return rng.choice([True, False])
     if ty[0] == "list":
         return [random_value(rng, ty[1]) for _ in range(rng.choice([0, 0, 1, 2, 3]))]
     raise ValueError(ty)
